@@ -6,7 +6,9 @@ src = "/tmp/wt/%s/_seed" % wt
 dst = "/verif/seeded/%s" % sid
 os.makedirs(dst, exist_ok=True)
 for f in os.listdir(src):
-    if os.path.getsize(os.path.join(src, f)) < 400000:
+    if os.path.isdir(os.path.join(src, f)):
+        shutil.copytree(os.path.join(src, f), os.path.join(dst, f), dirs_exist_ok=True)
+    elif os.path.getsize(os.path.join(src, f)) < 400000:
         shutil.copy(os.path.join(src, f), os.path.join(dst, f))
 m = json.load(open(os.path.join(dst, "meta.json")))
 m["seed_id"] = sid
